@@ -241,7 +241,7 @@ class Gen:
         nopt = rng.randint(2, 3)
         keys = rng.sample([0, 1, 2, 3, 4, 9], nopt)
         options = {}
-        all_packets = depth < self.p["max_depth"] and rng.random() < 0.3    # several packet alternatives (A, B, A selections)
+        all_packets = depth < self.p["max_depth"] and rng.random() < self.p.get("p_sel_all_packets", 0.3)    # several packet alternatives (A, B, A selections)
         for k in keys:
             r = 0.9 if all_packets else rng.random()
             if r < 0.4:
